@@ -155,6 +155,16 @@ PubEv = _mk_ev()
 PUBEV = TPrim('pubev')
 
 
+def _mk_rep():
+    d = z3.Datatype('RepEv')
+    d.declare('mk_rep', ('rp_cid', Val), ('rp_mid', Val), ('rp_status', Val))
+    return d.create()
+
+
+RepEv = _mk_rep()
+REPEV = TPrim('repev')
+
+
 def zsorts(ty):
     """z3 sorts of the components of a type."""
     if ty == INT:
@@ -175,6 +185,8 @@ def zsorts(ty):
         return [SigEv]
     if ty == PUBEV:
         return [PubEv]
+    if ty == REPEV:
+        return [RepEv]
     if isinstance(ty, TRef):
         return [z3.IntSort()]
     if isinstance(ty, TList):
@@ -255,8 +267,15 @@ def reset_fresh():
     _fresh_ctr[0] = 0
 
 
+def _tuple_of(ty, mk):
+    items = [mk(t, i) for i, t in enumerate(ty.elems)]
+    return SV(ty, [c for it in items for c in it.t], py=items)
+
+
 def fresh(ty, base):
     """fresh symbolic value of a type"""
+    if isinstance(ty, TTuple):
+        return _tuple_of(ty, lambda t, i: fresh(t, '%s_%d' % (base, i)))
     n = fresh_name(base)
     ss = zsorts(ty)
     if len(ss) == 1:
@@ -265,6 +284,8 @@ def fresh(ty, base):
 
 
 def named(ty, name):
+    if isinstance(ty, TTuple):
+        return _tuple_of(ty, lambda t, i: named(t, '%s[%d]' % (name, i)))
     ss = zsorts(ty)
     if len(ss) == 1:
         return SV(ty, z3.Const(name, ss[0]))
